@@ -1,5 +1,5 @@
 INIT Init
 NEXT Next
 CONSTANTS
-  MaxC = 3
+  MaxC = 2
   Rich = TRUE
